@@ -56,6 +56,7 @@ type monitors struct {
 	ackChecks int64
 
 	// C02: when each term's fencing first reached any node, and when each node was told to lead
+	electionNote map[int64]map[int64]string // shard -> term -> how many of ensemble+removed had answered NewTerm when BecomeLeader was sent
 	fenceStamp map[int64]map[int64]int64 // shard -> term -> history stamp of the first NewTerm delivery
 	leadAt     map[string]map[int64][]leadEv
 }
@@ -70,7 +71,7 @@ func newMonitors(c *chaos) *monitors {
 		leadersSeen: map[int64]map[int64]string{}, nodeTerm: map[string]map[int64]int64{}, deleted: map[string]map[int64]bool{}, blReq: map[string]*proto.BecomeLeaderRequest{}, blResp: map[string]map[string]*proto.EntryId{},
 		fences: map[string]map[int64]*fenceInfo{}, streamTerm: map[string]int64{}, streamShard: map[string]int64{},
 		tagTerm: map[string]int64{}, checkedLeaders: map[string]bool{},
-		fenceStamp: map[int64]map[int64]int64{}, leadAt: map[string]map[int64][]leadEv{}}
+		electionNote: map[int64]map[int64]string{}, fenceStamp: map[int64]map[int64]int64{}, leadAt: map[string]map[int64][]leadEv{}}
 }
 
 func (m *monitors) want(p string) bool {
@@ -492,6 +493,40 @@ func (m *monitors) checkBecomeLeader(dst string, req *proto.BecomeLeaderRequest,
 	if len(sm.RemovedNodes) > 0 {
 		m.c.r.Count("election_with_removed_nodes", 1)
 	}
+	{
+		// for the record (quoted by the containment oracle): the fencing set oxia uses during a swap
+		// is ensemble + removed nodes
+		all := map[string]bool{}
+		for n := range ens {
+			all[n] = true
+		}
+		for _, x := range sm.RemovedNodes {
+			all[nodeOfAddr(x.GetIdentifier())] = true
+		}
+		answered := 0
+		for n := range resp {
+			if all[n] {
+				answered++
+			}
+		}
+		verdict := "a majority"
+		if answered < len(all)/2+1 {
+			verdict = "NOT a majority"
+		}
+		if m.electionNote[req.Shard] == nil {
+			m.electionNote[req.Shard] = map[int64]string{}
+		}
+		twice := ""
+		seenRemoved := map[string]bool{}
+		for _, x := range sm.RemovedNodes {
+			n := nodeOfAddr(x.GetIdentifier())
+			if ens[n] || seenRemoved[n] {
+				twice = fmt.Sprintf("; %s is listed more than once among ensemble and removed nodes, so its answer is counted twice", n)
+			}
+			seenRemoved[n] = true
+		}
+		m.electionNote[req.Shard][req.Term] = fmt.Sprintf("when BecomeLeader(term %d) was sent, %d of the %d ensemble+removed nodes had answered NewTerm: %s%s", req.Term, answered, len(all), verdict, twice)
+	}
 	raw := func(l []model.Server) string {
 		var out []string
 		for _, x := range l {
@@ -709,8 +744,12 @@ func (m *monitors) checkContainment(shard int64, node string, v *shardView, when
 			continue // acknowledged in this or a newer term (or term unknown: RF=1 path)
 		}
 		if have[op.Tag] == 0 && first <= 0 {
-			m.fail("C01", "acked-write-missing", "write %s=%s was acknowledged (by %s, log term %d) but is not in the log of %s, leader of shard %d in term %d, %s",
-				op.Key, op.Tag, op.Node, at, node, shard, v.Term, when)
+			note := m.electionNote[shard][v.Term]
+			if note == "" {
+				note = "fencing of that election not observed"
+			}
+			m.fail("C01", "acked-write-missing", "write %s=%s was acknowledged (by %s, log term %d) but is not in the log of %s, leader of shard %d in term %d, %s (%s)",
+				op.Key, op.Tag, op.Node, at, node, shard, v.Term, when, note)
 			return
 		}
 		if have[op.Tag] > 1 {
